@@ -54,5 +54,31 @@ def run(ctx):
 
 
 def replay(rep):
-    print("re-run bin/check C18; failing case:", rep["replay"])
-    return 0
+    """Reference leg: the recorded opcode on the recorded path; path leg: the recorded program through xprog."""
+    import os
+    import subprocess
+    r = rep["replay"]
+    scratch = vlib.scratch_dir("C18r")
+    env = vlib.scrub_env(scratch=scratch)
+    if "opcode" in r:
+        exe = vlib.build_engine("xemu", "plain")
+        p = subprocess.run([exe, "--tier", "quick", "--classes", "float", "--path", r.get("path", "emulate"), "--only", r["opcode"]],
+                           stdout=subprocess.PIPE, env=env, timeout=1200)
+    else:
+        exe = vlib.build_engine("xprog", "plain")
+        fn = os.path.join(scratch, "replay.orc")
+        text = r.get("program", "")
+        open(fn, "w").write(text if text.startswith(".function") else "")
+        p = subprocess.run([exe, "--levels", "L4", "--corpus", fn, "--classes", "float", "--targets", r.get("target", "avx,sse")],
+                           stdout=subprocess.PIPE, env=env, timeout=1200)
+    shutil.rmtree(scratch, ignore_errors=True)
+    known = {f["key"] for f in vlib.load_findings() if f.get("property") == "C18"}
+    bad = []
+    for l in p.stdout.decode().splitlines():
+        if '"t":"viol"' in l:
+            import json
+            k = json.loads(l)["key"].replace("C01|", "C18|paths|", 1)
+            if k not in known:
+                bad.append(l)
+    print("\n".join(b[:500] for b in bad[:5]) if bad else "replayed without (unlisted) violation")
+    return 1 if bad else 0
